@@ -125,7 +125,7 @@ class C15(Prop):
     lean_exe = "c15_driver"
     harness = "h_msaops.c"
     theorems = ["EaselModel.Props.C15." + t for t in (
-        "compact_is_filter", "columnSubset_is_filter", "columnCompact_is_filter", "columnSubset_nucleic",
+        "compact_is_filter", "columnSubset_is_filter", "columnCompact_is_filter", "columnSubset_nucleic", "columnSubset_nucleic_plain",
         "columnSubset_wellformed", "columnSubset_dealign",
         "minimGaps_text_removes_exactly", "minimGaps_digital_removes_exactly", "minimGaps_text_is_filter",
         "minimGaps_digital_is_filter", "noGaps_text_keeps_exactly", "noGaps_text_is_filter", "fetch_is_ungapped_row", "fetch_after_gap_removal",
@@ -552,6 +552,7 @@ class C15(Prop):
             k, v = w.split("=", 1)
             if k == "xr": t, val = v.split(","); xr.append((unhx(t), unhx(val)))
             else: kv[k] = v
+        if kv.get("pad") == "BAD": return Failure("monitor", "esl_sq_FetchFromMSA: digital ss/xr annotation lost its leading NUL (1..n indexing)")
         sq = d.sq[i]; row = sq["row"]
         if d.digital:
             K, Kp, _ = ABC[d.abc]; keep = [not (x == K or x == Kp - 1) for x in row]
